@@ -1,6 +1,7 @@
 import Driver.Loop
 import Driver.C01
 import Driver.C02
+import Driver.C12Mon
 open Kv
 
 /-- full driver: regenerated model + monitor -/
@@ -8,6 +9,7 @@ def dispatch (prop : String) (l : Line) : String :=
   match prop with
   | "C01" => Drv.C01.step l
   | "C02" => Drv.C02.step l
+  | "C12" => Drv.C12.step l
   | _ => "bad-op"
 
 def main : IO Unit := driverMain dispatch
